@@ -48,7 +48,8 @@ def run_many(params, known):
     from ..world import Violation
     violations = []
     count = 0
-    for (seg, n, lumpy) in [(sg, nn, False) for sg in (4, 1) for nn in range(1, 13)] + [(1, 1, True), (1, 2, True)]:
+    for (seg, n, lumpy, pop_order) in [(sg, nn, False, po) for sg in (4, 1) for nn in range(1, 13) for po in ('listed', 'reversed', 'middle-first')
+                                       if po == 'listed' or nn > 1] + [(1, 1, True, 'listed'), (1, 2, True, 'listed')]:
         if True:
             count += 1
             datas = [hexn(1 + (k % 3), 0x10 * (k + 1)) for k in range(n)]
@@ -62,7 +63,7 @@ def run_many(params, known):
             sig = _Signals()
             esc = EscapeMonitor(PROP)
             w.monitors = [sig, esc]
-            case = dict(bundles=n, segment_size=seg, lumpy=bool(lumpy))
+            case = dict(bundles=n, segment_size=seg, lumpy=bool(lumpy), popped=pop_order)
             found = None
             queued = []
             steps = 0
@@ -99,12 +100,19 @@ def run_many(params, known):
                     found = 'send queue lists %r, queued and unfinished are %r' % ([str(x) for x in sq[1]], want_sq)
             if found is None:
                 rq = w.bus_call(w.procs['B'], PATH, 'recv_bundle_get_queue', iface=IFACE)
-                got = []
-                for bid in (rq[1] if rq[0] == 'ok' else []):
-                    res = w.bus_call(w.procs['B'], PATH, 'recv_bundle_pop_data', str(bid), iface=IFACE)
-                    got.append(bytes(res[1]).hex() if res[0] == 'ok' else repr(res))
-                if got != datas:
-                    found = 'popping in listed order yields %r, sent %r' % (got, datas)
+                listed = [str(x) for x in (rq[1] if rq[0] == 'ok' else [])]
+                # the user may take the waiting bundles in any order: each id hands out the bundle announced under it
+                order = list(listed)
+                if pop_order == 'reversed':
+                    order.reverse()
+                elif pop_order == 'middle-first':
+                    order = order[len(order) // 2:] + order[:len(order) // 2]
+                got = {}
+                for bid in order:
+                    res = w.bus_call(w.procs['B'], PATH, 'recv_bundle_pop_data', bid, iface=IFACE)
+                    got[bid] = bytes(res[1]).hex() if res[0] == 'ok' else repr(res)
+                if [got.get(b) for b in listed] != datas:
+                    found = 'popping %s yields %r for the ids %r, sent %r' % (pop_order, [got.get(b) for b in listed], listed, datas)
             if found and len(violations) < 4:
                 v = Violation(PROP, 'delivery', 'queue-order-differs-from-arrival-order', dict(), '%r: %s' % (case, found)).as_dict()
                 v['case'] = case
